@@ -793,3 +793,87 @@ Proof.
   - now apply Permutation_map.
   - rewrite map_map. cbn. exact Hn.
 Qed.
+
+(* ------------------------------------------------------------------ the tools *)
+
+Definition trace_streams (enum : list (list Z * strm)) : list strm := map snd (sort_streams enum).
+
+Lemma in_trace_streams enum s : In s (trace_streams enum) <-> exists x, In x enum /\ snd x = s.
+Proof.
+  unfold trace_streams. rewrite in_map_iff. split; intros [x [H1 H2]].
+  - exists x. split; auto. apply (Permutation_in _ (sort_streams_perm enum)). tauto.
+  - exists x. split; [tauto|]. apply (Permutation_in _ (Permutation_sym (sort_streams_perm enum))). tauto.
+Qed.
+
+(* ovniemu on sorted streams *)
+Theorem emu_replay enum :
+  (forall x, In x enum -> stream_ok (snd x) = true) -> gate_ok (trace_streams enum) = true ->
+  exists out, run_emu enum = (out, VOk) /\ spec_all (trace_streams enum) out.
+Proof.
+  intros Hs Hg. apply (run_sorted_streams true); auto.
+  intros s Hin. apply in_trace_streams in Hin as [x [Hx <-]]. auto.
+Qed.
+
+(* ovniemu: a completed replay satisfies the spec and implies the side conditions;
+   equivalently, a stream that goes backwards (or starts below 0) or a clock gate gives an error *)
+Theorem emu_completed enum out :
+  run_emu enum = (out, VOk) ->
+  spec_all (trace_streams enum) out /\ gate_ok (trace_streams enum) = true /\
+  forall x, In x enum -> stream_ok (snd x) = true.
+Proof.
+  intros E. destruct (run_VOk_spec true _ _ E) as [H1 [H2 [H3 [H4 H5]]]].
+  destruct (H5 eq_refl) as [H6 [H7 H8]]. repeat split; auto.
+  intros x Hx. apply H8. apply in_trace_streams. eauto.
+Qed.
+
+Theorem emu_backwards_rejected enum x :
+  In x enum -> stream_ok (snd x) = false -> forall out v, run_emu enum = (out, v) -> v <> VOk.
+Proof.
+  intros Hx Hbad out v E ->. destruct (emu_completed enum out E) as [_ [_ H]].
+  rewrite (H x Hx) in Hbad. discriminate.
+Qed.
+
+Theorem emu_gate_rejected enum :
+  gate_ok (trace_streams enum) = false -> forall out v, run_emu enum = (out, v) -> v <> VOk.
+Proof.
+  intros Hbad out v E ->. destruct (emu_completed enum out E) as [_ [H _]]. congruence.
+Qed.
+
+(* ovnidump: it never loads the offset table, so the streams it replays have offset 0 *)
+Theorem dump_replay enum :
+  exists out, run_dump enum = (out, VOk) /\
+    let ss := trace_streams (map zero_off enum) in
+    spec_complete ss out /\ spec_stream_order ss out /\ spec_corrected ss out /\ spec_dclock out /\
+    ((forall x, In x enum -> stream_sorted (snd (zero_off x)) = true) -> spec_sorted out).
+Proof.
+  destruct (run_dump_total (trace_streams (map zero_off enum))) as [out [E [H1 [H2 [H3 H4]]]]].
+  exists out. split; [exact E|]. cbn zeta. repeat split; auto.
+  intros Hs. destruct (run_sorted_streams false (trace_streams (map zero_off enum))) as [out' [E' H']].
+  - intros s Hin. apply in_trace_streams in Hin as [x [Hx <-]].
+    apply in_map_iff in Hx as [y [<- Hy]]. auto.
+  - discriminate.
+  - unfold run_dump in E. fold (trace_streams (map zero_off enum)) in E. rewrite E in E'.
+    inversion E'; subst. apply H'.
+Qed.
+
+Definition corrected_in (ss : list strm) (o : oev) : Z := o_rclock o + s_off (nth (o_id o) ss no_strm).
+
+(* ... and therefore its order is NOT the corrected-time order when the table is not trivial:
+   "a": one event at 10 (offset 0); "b": one event at 105 (offset -100, corrected 5) *)
+Theorem dump_corrected_order_refuted :
+  exists enum out,
+    NoDup (map fst enum) /\ (forall x, In x enum -> stream_ok (snd x) = true) /\
+    gate_ok (trace_streams enum) = true /\
+    run_dump enum = (out, VOk) /\
+    ~ Sorted Z.le (map (corrected_in (trace_streams enum)) out).
+Proof.
+  exists [([97], mkstrm 0 [(10, 0)]); ([98], mkstrm (-100) [(105, 0)])].
+  eexists. split; [|split; [|split; [|split]]].
+  - cbn. constructor; [intros [H|[]]; discriminate|]. constructor; [intros []|constructor].
+  - intros x [<-|[<-|[]]]; reflexivity.
+  - reflexivity.
+  - vm_compute. reflexivity.
+  - vm_compute. intros H. inversion H as [|? ? _ Hd]; subst. inversion Hd as [|? ? Hle]; subst.
+    apply Hle. reflexivity.
+Qed.
+
